@@ -24,8 +24,9 @@ pub mod ispec {
 
     // ---- property text (C04)
     pub open spec fn in_range_u(v: int, n: nat) -> bool { 0 <= v < pow2(n) }
-    pub open spec fn in_range_s(v: int, n: nat) -> bool { n >= 1 && -(pow2((n - 1) as nat) as int) <= v < pow2((n - 1) as nat) }
-    pub open spec fn in_range_i(v: int, n: nat) -> bool { n >= 1 && -(pow2((n - 1) as nat) as int) <= v < pow2(n) }
+    //   for n == 0 the bound 2^(n-1) is one half, so only 0 is in range
+    pub open spec fn in_range_s(v: int, n: nat) -> bool { if n == 0 { v == 0 } else { -(pow2((n - 1) as nat) as int) <= v < pow2((n - 1) as nat) } }
+    pub open spec fn in_range_i(v: int, n: nat) -> bool { if n == 0 { v == 0 } else { -(pow2((n - 1) as nat) as int) <= v < pow2(n) } }
 
     pub proof fn lemma_bitlen_le(v: nat, n: nat)
         ensures bitlen(v) <= n <==> v < pow2(n)
